@@ -168,11 +168,12 @@ def check(run):
     quick = run.tier == 'quick'
     T = spec('Threads.tla')
     run.rule = ('schedules: every single-preemption schedule (switch points = line events in clastic/* and generated chain code) of '
-                'ordered scenario pairs, seeded random multi-preemption schedules of 3-4 threads, free-running stress; '
+                'ordered scenario pairs, seeded random multi-preemption schedules of 3-4 threads, behaviours of Threads.tla generated '
+                'by TLC and replayed at label granularity, free-running stress; '
                 'non-trivial = schedule in which the preempted thread was actually interrupted mid-request')
     run.assumptions = ['interleavings inside C code (re, werkzeug internals, itertools.count.__next__) are atomic under the GIL',
-                       'free-threaded builds are out of scope', 'TLC-generated label-level schedules are not replayed (the line-level '
-                       'schedules subsume them)']
+                       'free-threaded builds are out of scope',
+                       'TLC behaviours are replayed at label granularity: k-th label step of a process = k-th segment of its thread']
     for name, cfg in (('Threads (3 threads, all interleavings)', 'Threads_none.cfg'), ('Threads (4 threads)', 'Threads_4.cfg')):
         r = tlc.run_tlc(T, cfgpath(cfg), deadlock=False, timeout=1200)
         run.add_tlc(name, r)
@@ -241,6 +242,9 @@ def check(run):
         rec['_kind'] = 'random multi-preemption'
         traces.append(rec)
         nmulti += 1
+    # behaviours of Threads.tla generated by TLC, replayed at label granularity (many switches between 3 threads)
+    import c12_tlcsched
+    tid, ntlc, ntlc_switches = c12_tlcsched.leg(run, quick, app, W, baseline, repo, traces, tid)
     # free-running stress
     old_si = sys.getswitchinterval()
     sys.setswitchinterval(1e-6)
@@ -285,7 +289,8 @@ def check(run):
                     chunk = []
     finally:
         sys.setswitchinterval(old_si)
-    run.notes['schedules'] = {'single_preemption': npre, 'random_multi': nmulti, 'stress_chunks': nstress, 'ordered_pairs': len(pairs)}
+    run.notes['schedules'] = {'single_preemption': npre, 'random_multi': nmulti, 'tlc_behaviours_replayed': ntlc,
+                              'switches_in_replayed_behaviours': ntlc_switches, 'stress_chunks': nstress, 'ordered_pairs': len(pairs)}
     acc, rej = tracecheck.validate(run, 'Threads_Trace', spec('Threads_Trace.tla'), cfgpath('Threads_Trace.cfg'),
                                    cfgpath('Threads_Trace_diag.cfg'),
                                    [{k: v for k, v in t.items() if not k.startswith('_')} for t in traces])
